@@ -39,7 +39,7 @@ def gen(rng, tier):
     with_cancel = rng.random() < 0.25
     # some runs raise exceptions whose classes mean something to Python or to concurrent.futures
     # (StopIteration, CancelledError, AttributeError, KeyError): they are exceptions like any other
-    err_names = ["ErrA", "ErrA", "ErrB", "ErrC"] + (["ErrStop", "ErrCancelled", "ErrAttr", "ErrKey"] if rng.random() < 0.2 else [])
+    err_names = ["ErrA", "ErrA", "ErrB", "ErrC"] + (["ErrStop", "ErrCancelled", "ErrAttr", "ErrKey", "FalsyErr"] if rng.random() < 0.2 else [])
     for c in range(nclients):
         ops = []
         for _ in range(nsubs_per[c]):
